@@ -37,6 +37,35 @@ type readWriter struct {
 func (r *readWriter) Read(p []byte) (n int, err error)  { return r.r.Read(p) }
 func (r *readWriter) Write(p []byte) (n int, err error) { return r.w.Write(p) }
 
+// sshSessionMain runs the command line requested by a session of the built-in
+// SSH listeners (anonymous or authorized SSH). Such a session may only speak
+// the rsync daemon protocol against the configured modules, i.e. run
+// "rsync --server --daemon .": client-mode transfers (including -e), command
+// mode servers on arbitrary paths and starting another daemon are refused.
+func sshSessionMain(ctx context.Context, cfg *rsyncdconfig.Config, args []string, stdin io.Reader, stdout io.Writer, stderr io.Writer) error {
+	osenv := &rsyncos.Env{
+		Stdin:  stdin,
+		Stdout: stdout,
+		Stderr: stderr,
+		// This process is already restricted since to the
+		// rsyncd.NewServer call above. Do not add more rulesets to stay
+		// under the limit of policy layers per process.
+		DontRestrict: true,
+	}
+	if len(args) == 0 {
+		return fmt.Errorf("empty command line")
+	}
+	pc := rsyncopts.NewContext(rsyncopts.NewOptionsWithGokrazyDefaults(osenv))
+	if err := pc.ParseArguments(osenv, args[1:]); err != nil {
+		return err
+	}
+	if !pc.Options.Daemon() || !pc.Options.Server() {
+		return fmt.Errorf("only the rsync daemon protocol (rsync --server --daemon .) is available over this SSH listener")
+	}
+	_, err := Main(ctx, osenv, args, cfg)
+	return err
+}
+
 func Main(ctx context.Context, osenv *rsyncos.Env, args []string, cfg *rsyncdconfig.Config) (*rsyncstats.TransferStats, error) {
 	osenv.Logf("Main(osenv=%v, args=%q)", osenv, args)
 	pc := rsyncopts.NewContext(rsyncopts.NewOptionsWithGokrazyDefaults(osenv))
@@ -278,34 +307,14 @@ func Main(ctx context.Context, osenv *rsyncos.Env, args []string, cfg *rsyncdcon
 		}
 		osenv.Logf("rsync daemon listening (authorized SSH) on %s", ln.Addr())
 		return nil, anonssh.Serve(ctx, osenv, ln, sshListener, cfg, func(args []string, stdin io.Reader, stdout io.Writer, stderr io.Writer) error {
-			osenv := &rsyncos.Env{
-				Stdin:  stdin,
-				Stdout: stdout,
-				Stderr: stderr,
-				// This process is already restricted since to the
-				// rsyncd.NewServer call above. Do not add more rulesets to stay
-				// under the limit of policy layers per process.
-				DontRestrict: true,
-			}
-			_, err := Main(ctx, osenv, args, cfg)
-			return err
+			return sshSessionMain(ctx, cfg, args, stdin, stdout, stderr)
 		})
 	}
 
 	if cfg.Listeners[0].AnonSSH != "" {
 		osenv.Logf("rsync daemon listening (anon SSH) on %s", ln.Addr())
 		return nil, anonssh.Serve(ctx, osenv, ln, sshListener, cfg, func(args []string, stdin io.Reader, stdout io.Writer, stderr io.Writer) error {
-			osenv := &rsyncos.Env{
-				Stdin:  stdin,
-				Stdout: stdout,
-				Stderr: stderr,
-				// This process is already restricted since to the
-				// rsyncd.NewServer call above. Do not add more rulesets to stay
-				// under the limit of policy layers per process.
-				DontRestrict: true,
-			}
-			_, err := Main(ctx, osenv, args, cfg)
-			return err
+			return sshSessionMain(ctx, cfg, args, stdin, stdout, stderr)
 		})
 	}
 
